@@ -345,8 +345,34 @@ class Interp:
             return 'class'
         return 'other:' + type(v).__name__
 
+    def type_is(self, a, b):
+        """`type(v) is C` (also ==) for a value v whose dynamic type is symbolic"""
+        if not isinstance(a, TypeOfV):
+            a, b = b, a
+        v = a.v
+        if isinstance(b, TypeOfV):
+            if isinstance(v, ObjV) and isinstance(b.v, ObjV):
+                return class_of(v.ref) == class_of(b.v.ref)
+            raise Unsupported('comparison of two symbolic types')
+        if isinstance(v, ObjV):
+            if not isinstance(b, ClassV) or b.name not in self.ct.classes:
+                return False      # builtin types, exception classes: never the class of a modelled object
+            if not self.ct.is_subclass(b.name, v.cls):
+                return False      # static typing (shape validity): the dynamic class is a subclass of the static one
+            return class_of(v.ref) == self.ts.class_id(b.name)
+        if isinstance(v, SV) and isinstance(v.ty, TOpt):
+            inner = self.bi_type([self.narrow_opt(v)], {}, 0)
+            isn = self.opt_is_none(v)
+            if isinstance(b, Builtin) and b.name == 'NoneType':
+                return isn
+            same = self.identical(inner, b) if not isinstance(inner, TypeOfV) else self.type_is(inner, b)
+            return self.simp(z3.And(z3.Not(isn), self.as_bool(same)))
+        raise Unsupported(f'type() comparison for {v!r:.40}')
+
     def eq(self, a, b):
         """python == as Bool term / python bool"""
+        if isinstance(a, TypeOfV) or isinstance(b, TypeOfV):
+            return self.type_is(a, b)
         if isinstance(a, SV) and isinstance(a.ty, TOpt):
             if b is None:
                 return self.opt_is_none(a)
@@ -770,7 +796,7 @@ class InterpExpr:
     EXC_NAMES = {'Exception', 'KeyError', 'ValueError', 'TypeError', 'IndexError', 'AttributeError', 'RuntimeError',
                  'NotImplementedError', 'ZeroDivisionError', 'StopIteration', 'AssertionError', 'OSError', 'LookupError',
                  'ArithmeticError', 'ImportError', 'ModuleNotFoundError', 'SyntaxError', 'OverflowError', 'BaseException',
-                 'FileNotFoundError', 'IOError', 'UnicodeError', 'RecursionError'}
+                 'FileNotFoundError', 'IOError', 'UnicodeError', 'RecursionError', 'MemoryError'}
 
     def partial(self, ok, exc, line):
         """partial operation: `ok` is the condition under which it does not raise `exc`"""
@@ -937,6 +963,8 @@ class InterpExpr:
                     xt = self.lift(x)
                     res = xt if res is None else z3.If(base.t == code, xt, res)
                 return SV(res, STR if res.sort() == Str else INT)
+        if attr == '__name__' and isinstance(base, (ClassV, TypeOfV)):
+            return base.name.split('.')[-1] if isinstance(base, ClassV) else self.opaque_str()
         if isinstance(base, ClassV):
             return self.class_getattr(base.name, attr, line)
         if isinstance(base, ModuleV):
@@ -1012,7 +1040,40 @@ class InterpExpr:
             ext = self.reg.external_attr(cls, attr)
             if ext is not None:
                 return ext(self, obj)
+        down = self.downcast_getattr(obj, attr, line)
+        if down is not NotImplemented:
+            return down
         raise Unsupported(f'{cls}.{attr}: neither property, field, method nor class constant (line {line})')
+
+    def downcast_getattr(self, obj, attr, line):
+        """attribute that the static class does not have but some of its subclasses declare as a field: python raises
+        AttributeError unless the dynamic class is one of them (partial operation), then reads that class's field"""
+        if obj.cls not in self.ct.classes or self.is_exact(obj):
+            return NotImplemented
+        cands = []
+        for c in self.ct.subclasses(obj.cls):
+            if c == obj.cls:
+                continue
+            ft = self.ts.field_type(c, attr)
+            if ft is not None and ft != ANY and self.ct.find_getter(c, attr) is None:
+                cands.append((c, ft))
+        if not cands:
+            return NotImplemented
+        ids = lambda cs: z3.Or([class_of(obj.ref) == self.ts.class_id(c) for c in cs])
+        self.partial(ids([c for c, _ in cands]), 'AttributeError', line)
+        groups = {}
+        for c, ft in cands:
+            groups.setdefault(ft, []).append(c)
+        glist = list(groups.items())
+        if len(glist) > 1:
+            if self.mode != EXEC:
+                raise Unsupported(f'{obj.cls}.{attr} has different types in subclasses: narrow the object first '
+                                  f'(quantify over the subclass) at line {line}')
+            for ft, cs in glist[:-1]:
+                if self.run.decide(ids(cs)):
+                    return self.read_field(ObjV(obj.ref, cs[0], obj.heap), attr)
+        ft, cs = glist[-1]
+        return self.read_field(ObjV(obj.ref, cs[0], obj.heap), attr)
 
     def class_const(self, cc):
         dc, node = cc
@@ -1242,6 +1303,8 @@ class InterpExpr:
         return self.contains(coll, v)
 
     def identical(self, a, b):
+        if isinstance(a, TypeOfV) or isinstance(b, TypeOfV):
+            return self.type_is(a, b)
         if a is None or b is None:
             o = b if a is None else a
             if o is None:
@@ -1253,6 +1316,11 @@ class InterpExpr:
             return False
         if isinstance(a, HeapVal) and isinstance(b, HeapVal):
             return a.ref == b.ref
+        # Optional reference (null when None) against a reference / another Optional reference
+        ra = a.ref if isinstance(a, HeapVal) else a.t if (isinstance(a, SV) and isinstance(a.ty, TOpt) and a.t.sort() == Ref) else None
+        rb = b.ref if isinstance(b, HeapVal) else b.t if (isinstance(b, SV) and isinstance(b.ty, TOpt) and b.t.sort() == Ref) else None
+        if ra is not None and rb is not None:
+            return ra == rb
         if isinstance(a, (EnumMember, ClassV)) or isinstance(b, (EnumMember, ClassV)):
             return self.eq(a, b)
         if isinstance(a, bool) or isinstance(b, bool) or (isinstance(a, SV) and a.ty == BOOL) or (isinstance(b, SV) and b.ty == BOOL):
@@ -1263,6 +1331,8 @@ class InterpExpr:
             return self.eq(a, b)
         if isinstance(a, Builtin) and isinstance(b, Builtin):
             return a.name == b.name
+        if isinstance(a, (Builtin, ClassV)) and isinstance(b, (Builtin, ClassV)):
+            return False      # a builtin type and a class of the class table
         if isinstance(a, HeapVal) != isinstance(b, HeapVal):
             return False
         raise Unsupported(f'`is` between {type(a).__name__} and {type(b).__name__}')
@@ -1913,7 +1983,7 @@ class InterpStmt:
                          'OSError': 'Exception', 'IOError': 'Exception', 'FileNotFoundError': 'OSError', 'ImportError': 'Exception',
                          'ModuleNotFoundError': 'ImportError', 'SyntaxError': 'Exception', 'UnicodeError': 'ValueError',
                          'Exception': 'BaseException', 'RPCError': 'Exception', 're.error': 'Exception', 'error': 'Exception',
-                         'Fault': 'Exception', 'InvalidTransition': 'SupvisorsException', 'Empty': 'Exception'}
+                         'MemoryError': 'Exception', 'Fault': 'Exception', 'InvalidTransition': 'SupvisorsException', 'Empty': 'Exception'}
 
     def exc_isinstance(self, cls, base):
         seen = set()
